@@ -34,7 +34,7 @@ ALL = ["AdminUID", "DatabasePath", "BypassUID", "PrivateKey", "KeepAlive", "Prox
 STATE = ALL[:10]          # what reaches ParseConfig + InitState
 CORE = ["AdminUID", "DatabasePath", "BypassUID", "KeepAlive"]      # options whose effects meet in one output
 CORE_T = CORE + ["PrivateKey", "CncMode"]
-EXP_FIELDS = ["outcome", "redirHost", "redirPort", "proxyBook", "bypass", "adminUID", "keepAlive", "panel", "dbFile", "bindRaw",
+EXP_FIELDS = ["outcome", "redirHost", "redirPort", "proxyBook", "bypass", "privKey", "adminUID", "keepAlive", "panel", "dbFile", "bindRaw",
               "listen", "listenable", "pluginBook"]
 SETS = {"proxyBook", "bypass", "listen", "pluginBook"}
 NVALUES = {"ProxyBook": 19, "RedirAddr": 8, "PrivateKey": 6, "AdminUID": 6, "BypassUID": 11, "DatabasePath": 4, "KeepAlive": 5,
@@ -127,7 +127,7 @@ def enumerate_rows(ctx, q, mc_dev):
     state_rows = rows + [r for r in bind_rows if r["cfg"]["Mode"] == "standalone" and r["cfg"]["BindAddr"] != "example"
                          and ",".join(r["cfg"][o] for o in ALL) not in {",".join(x["cfg"][o] for o in ALL) for x in rows}]
     # oracle self-test: falsified expectations (KeepAlive, RedirPort, bypass set) must be noticed
-    probe = [r for r in rows if r["exp"]["keepAlive"] == "N" and r["exp"]["outcome"] == "ok" and r["exp"]["redirPort"] == "P"
+    probe = [r for r in rows if r["exp"]["keepAlive"] == "N" and r["exp"]["outcome"] == "documented-accept" and r["exp"]["redirPort"] == "P"
              and "b3" not in r["exp"]["bypass"] and r["cfg"]["Source"] == "file"][:40]
     if not probe:
         raise lib.Inconclusive("no valid row with a positive KeepAlive and a RedirAddr port was generated")
